@@ -585,8 +585,15 @@ class Connection(ExportImport):
                     assert serial is not None  # See _uncommitted
                     self._modified.pop()  # not modified
                     continue
-                s = self._storage.storeBlob(oid, serial, p, blobfilename,
-                                            '', transaction)
+                try:
+                    s = self._storage.storeBlob(oid, serial, p, blobfilename,
+                                                '', transaction)
+                except:  # noqa: E722 do not use bare 'except'
+                    # The blob gave up its working file and the storage
+                    # did not take it: don't leave it behind.
+                    if os.path.exists(blobfilename):
+                        os.remove(blobfilename)
+                    raise
                 # we invalidate the object here in order to ensure
                 # that that the next attribute access of its name
                 # unghostify it, which will cause its blob data
